@@ -77,6 +77,22 @@ def make_reaction(spec: dict):
 
     parts = {n: make_particle(n, d["spin2"], d.get("parity", 1), d.get("mass", 1.0), pid=100 + i) for i, (n, d) in enumerate(spec["particles"].items())}
     trs = []
+    if spec.get("meta", {}).get("reverse_nodes"):
+        # a hand-built reaction need not number its interaction nodes from the production node on: node ids reversed
+        from qrules.topology import Edge, Topology
+
+        tops = {}
+        transitions = []
+        for t in spec["transitions"]:
+            top = t["topology"]
+            if id(top) not in tops:
+                ns = sorted(top.nodes)
+                perm = dict(zip(ns, reversed(ns)))
+                tops[id(top)] = (Topology(nodes=frozenset(perm.values()), edges={e: Edge(None if ed.originating_node_id is None else perm[ed.originating_node_id],
+                                                                                     None if ed.ending_node_id is None else perm[ed.ending_node_id]) for e, ed in top.edges.items()}), perm)
+            new_top, perm = tops[id(top)]
+            transitions.append({"topology": new_top, "states": t["states"], "nodes": {perm[int(n)]: nd for n, nd in t["nodes"].items()}})
+        spec = {**spec, "transitions": transitions}
     for t in spec["transitions"]:
         states = {int(e): State(parts[p], F(h2, 2)) for e, (p, h2) in t["states"].items()}
         inter = {}
